@@ -213,7 +213,17 @@ example : run Skeleton.current (init [some { req := some 1, res := none }, none]
     before the decoder can reach a later decode error (checked against the regenerated skeleton). -/
 theorem C08_handoff_is_rendezvous : Skeleton.current.stHandoffChanCap = 0 := by decide
 
+/-- The model's `decRead` starts every frame from an empty envelope (`afterDecode` looks only at the
+    envelope just decoded).  In the source that is the `var msg Message[T]` INSIDE the decode loop
+    (checked against the regenerated skeleton): were it hoisted out, a frame that omits a member (any
+    encoder that drops empty fields) would redeliver the previous frame's, and a raw payload would be
+    decoded over the slice just handed to a read loop — behaviour that depends on the peer's encoder,
+    the chunking and the payload type, which the message API cannot show. -/
+theorem C08_envelope_fresh_per_frame : Skeleton.current.stMsgFreshPerIteration = true := by decide
+
 end Panrpc.St
+
+#print axioms Panrpc.St.C08_envelope_fresh_per_frame
 
 #print axioms Panrpc.St.C08_handoff_is_rendezvous
 #print axioms Panrpc.St.C08_stream_demux_order
